@@ -645,6 +645,26 @@ def reported(rep, c, sfx):
         return
     lits = [n for n in walk(fn["body"]) if kind(n) == "Struct" and n.get("path") == "pest::error::Error"]
     if not lits:
+        # the literal moved into a constructor helper (`Error::from_parts(variant, location, line_col, ..)`): read the
+        # helper's literal with its parameters replaced by this call's arguments
+        for n in walk(fn["body"]):
+            h = c.fn(callee(n)) if kind(n) in ("Call", "MethodCall") and isinstance(callee(n), str) else None
+            if h is None or h is fn or h.get("body") is None or not str(h["path"]).startswith("pest::error::"):
+                continue
+            hl = [x for x in walk(h["body"]) if kind(x) == "Struct" and x.get("path") == "pest::error::Error"]
+            if len(hl) != 1:
+                continue
+            args = hirq.call_args(n) if kind(n) == "Call" else [n["recv"]] + list(n["args"])
+            pmap = {}
+            for prm, a in zip(h["params"], args):
+                if prm.get("k") == "PBind":
+                    pmap[prm["id"]] = a
+            flds = []
+            for x in hl[0]["fields"]:
+                e = peel(x["e"])
+                flds.append({"name": x["name"], "e": pmap.get(e.get("id"), x["e"]) if kind(e) == "Path" and e.get("res") == "local" else x["e"]})
+            lits.append({"k": "Struct", "path": "pest::error::Error", "fields": flds, "sp": n.get("sp")})
+    if not lits:
         r.lost("the Error literal of new_from_pos")
         return
 
